@@ -352,8 +352,14 @@ def closePrims (opened : Bool) : List Prim :=
 /-- `syncBodyAndHeaderFilesLocked` -/
 def syncBH : List Prim := [.sync .body, .sync .header]
 
-/-- `SaveMessage`: offset := end of body; header line at end of header; body bytes; sync body, header -/
+/-- `SaveMessage` (after the `fix:` that writes the body first): offset := end of body; body bytes; header line at end
+    of header; sync body, header -/
 def saveMessagePrims (st : FStore) (fs : FS) (seq : Int) (msg : Bytes) : List Prim :=
+  [.write .body (len fs.body) msg, .write .header (len fs.header) (headerLine seq (len fs.body) msg.length)]
+  ++ (if st.sync then syncBH else [])
+
+/-- the pinned original `SaveMessage`: index line first, then the bytes it points at (DESIGN §9 D12a) -/
+def saveMessagePrimsOrig (st : FStore) (fs : FS) (seq : Int) (msg : Bytes) : List Prim :=
   [.write .header (len fs.header) (headerLine seq (len fs.body) msg.length), .write .body (len fs.body) msg]
   ++ (if st.sync then syncBH else [])
 
